@@ -623,6 +623,16 @@ def parse_property_file(path):
 
 def run_job(job, tier='quick'):
     import build as BLD
+    try:
+        key = b''.join(BLD.emit_function(c, {})['text'].encode() for c in job['functions']) + b''.join(BLD.emit_fragment(f)['text'].encode() for f in job.get('fragments', []))
+    except Exception:
+        return run_job_uncached(job, tier)
+    key += open(os.path.join(BLD.ROOT, job['property_file']), 'rb').read()
+    return BLD.cached(job, tier, key, lambda: run_job_uncached(job, tier))
+
+
+def run_job_uncached(job, tier='quick'):
+    import build as BLD
     import extract as X
     t0 = time.time()
     res = dict(job=job['name'], status='error', obligations=[], notes=[], cmds=[], secs=0, meta=dict(functions=[], fired={}))
